@@ -18,3 +18,39 @@ Print Assumptions C07_walked.
 Theorem C07_group_tallied_iff_matches : forall g own r, (snd (collect g own r) <> []) <-> group_matches g r = true.
 Proof. exact collect_nonempty. Qed.
 Print Assumptions C07_group_tallied_iff_matches.
+
+(* ---- the whole tally, declaratively ---- *)
+From GS Require Import RefTally.
+
+(* tallies g r: g's symbol, the tallies of its subgroups, and its "Other" bucket when it has subgroups none of which
+   matched (ruled group satisfied by r); g's symbol and its subgroups' tallies (rule-less group with a matching
+   subgroup); nothing otherwise.  collectSymbols computes exactly this. *)
+Theorem C07_tallies_declarative : forall g own r, snd (collect g own r) = tallies g r.
+Proof. exact collect_is_tallies. Qed.
+Print Assumptions C07_tallies_declarative.
+
+Theorem C07_categorize_declarative : forall top_subs topf r, topf r = true ->
+  snd (categorize top_subs topf r) =
+    [] :: below top_subs r ++ match top_subs, below top_subs r with _ :: _, [] => [str "other"] | _, _ => [] end.
+Proof. exact categorize_is_tallies. Qed.
+Print Assumptions C07_categorize_declarative.
+
+Theorem C07_member_iff : forall g r, tallies g r <> [] <-> group_matches g r = true.
+Proof. exact tallies_nonempty. Qed.
+Print Assumptions C07_member_iff.
+
+Theorem C07_other_bucket : forall sym name b subs r,
+  In (other_sym sym) (tallies (GNode sym name (Some b) subs) r) /\ ~ In (other_sym sym) (sym :: below subs r) ->
+  eval_b b r = true /\ subs <> [] /\ forall sg, In sg subs -> group_matches sg r = false.
+Proof. exact other_bucket_iff. Qed.
+Print Assumptions C07_other_bucket.
+
+Example C07_tallies_example :
+  let leaf1 := GNode (str "a.b.c") [] (Some (BPrefix (str "refs/heads/x"))) [] in
+  let leaf2 := GNode (str "a.b.d") [] (Some (BPrefix (str "refs/heads/y"))) [] in
+  let mid := GNode (str "a.b") [] None [leaf1; leaf2] in
+  let top := GNode (str "a") [] (Some (BPrefix (str "refs/heads"))) [mid] in
+  tallies top (str "refs/heads/y/1") = [str "a"; str "a.b"; str "a.b.d"] /\
+  tallies top (str "refs/heads/z") = [str "a"; str "a.other"] /\
+  tallies top (str "refs/tags/y") = [].
+Proof. exact tallies_example. Qed.
